@@ -477,7 +477,9 @@ fn main() {
                 }
             }
             let input: &'static [u8] = Box::leak(input.into_boxed_slice());
-            let arr: &'static mut [Header<'static>] = Box::leak(vec![EMPTY_HEADER; n / 3 + 8].into_boxed_slice());
+            // optional explicit header capacity (default: enough for every line of the input)
+            let cap: usize = args.get(5).and_then(|s| s.parse().ok()).unwrap_or(n / 3 + 8);
+            let arr: &'static mut [Header<'static>] = Box::leak(vec![EMPTY_HEADER; cap].into_boxed_slice());
             let e = match f.entry {
                 Entry::Req => 0,
                 Entry::Resp => 1,
@@ -486,6 +488,54 @@ fn main() {
             };
             let r = verif_work_parse(e, f.cfg, arr, input);
             println!("{} {}", input.len(), r);
+        }
+        Some("race") => {
+            // cold start: T threads released together make their FIRST parse calls of this process
+            // concurrently; afterwards (warm, single-threaded) the same calls give the reference.
+            // Supplementary to the loom exploration: it samples schedules of the real binary, and can
+            // only ever report a true difference.
+            let t: usize = args.get(2).and_then(|s| s.parse().ok()).unwrap_or(16);
+            let inputs: Vec<(Entry, u8, Vec<u8>)> = {
+                let mut v = Vec::new();
+                for (i, f) in FIELDS.iter().enumerate() {
+                    for l in [3usize, 17, 33, 70] {
+                        let mut b = f.pre.to_vec();
+                        b.extend(std::iter::repeat(f.fill).take(l));
+                        if i % 2 == 0 && l > 4 {
+                            b[f.pre.len() + l / 2] = 0x7f;
+                        }
+                        b.extend_from_slice(f.post);
+                        v.push((f.entry, f.cfg, b));
+                    }
+                }
+                v
+            };
+            let inputs = std::sync::Arc::new(inputs);
+            let barrier = std::sync::Arc::new(std::sync::Barrier::new(t));
+            let handles: Vec<_> = (0..t)
+                .map(|k| {
+                    let inputs = inputs.clone();
+                    let barrier = barrier.clone();
+                    std::thread::spawn(move || {
+                        barrier.wait();
+                        let n = inputs.len();
+                        (0..n).map(|j| { let (e, c, b) = &inputs[(j + k) % n]; ((j + k) % n, call(*e, *c, 2, b)) }).collect::<Vec<_>>()
+                    })
+                })
+                .collect();
+            let results: Vec<Vec<(usize, String)>> = handles.into_iter().map(|h| h.join().unwrap()).collect();
+            let reference: Vec<String> = inputs.iter().map(|(e, c, b)| call(*e, *c, 2, b)).collect();
+            let mut bad = 0;
+            for (k, rs) in results.iter().enumerate() {
+                for (j, r) in rs {
+                    if *r != reference[*j] {
+                        bad += 1;
+                        println!("MISMATCH thread {} input {} {}: racing {:?} warm {:?}", k, j, hex(&inputs[*j].2), r, reference[*j]);
+                    }
+                }
+            }
+            println!("race: {} threads x {} first calls, {} mismatches", t, inputs.len(), bad);
+            std::process::exit(if bad > 0 { 1 } else { 0 });
         }
         Some("info") => {
             #[cfg(httparse_verif)]
